@@ -40,7 +40,8 @@ DECIDES = ('Roles are found through the public ports of LFPSTransceiver (the sub
            'drive_electrical_idle; drive_electrical_idle on every transition from a burst on while the request stays '
            'high; nothing asserted on any transition reachable without a request; from every state reachable without a '
            'request a held request starts a burst within 4 transitions; with the request low the sub-graph outside the '
-           'initial FSM state has no cycle (other than region stuttering) and the initial state stays silent. ')
+           'initial FSM state has no cycle (other than region stuttering) and the initial state stays silent.  The frequency sweep of '
+           'both tiers contains a clock at which the largest window bound is an exact power of two of cycles. ')
 NOT_DECIDED = ('metastability / latency of the FFSynchronizer (modelled as one register; the monitor observes its output), '
                'lengths and periods within one cycle above a window maximum (sampling quantisation: neither required nor '
                'forbidden), the requirement to report single-shot envelopes whose idle gap is shorter than 4 cycles (the '
